@@ -547,7 +547,7 @@ func init() {
 			"expression ground truth: every invocation must be at the first token of some (sub)expression and every full-expression position must be offered once; which sub-expressions get their own step is not prescribed",
 		},
 		Strata: []*fw.Stratum{
-			{Name: "programs", Quick: 8000, Thorough: 60000, Run: func(t *fw.T) {
+			{Name: "programs", Quick: 16000, Thorough: 60000, Run: func(t *fw.T) {
 				r := t.Rand()
 				o := gen.SynOpts{ExprDepth: 2 + r.IntN(4), StmtDepth: 1 + r.IntN(3), MaxStmts: 1 + r.IntN(4), NumDot: r.IntN(4) == 0}
 				if t.Thorough() && r.IntN(4) == 0 {
@@ -570,7 +570,7 @@ func init() {
 					t.Sample(map[string]any{"stratum": "programs", "source": rd.Src, "stack": randStack(r, true).String()})
 				}
 			}},
-			{Name: "malformed", Quick: 30000, Thorough: 300000, PanicInconclusive: true, Run: func(t *fw.T) {
+			{Name: "malformed", Quick: 60000, Thorough: 300000, PanicInconclusive: true, Run: func(t *fw.T) {
 				r := t.Rand()
 				var src string
 				if r.IntN(2) == 0 {
